@@ -1,2 +1,123 @@
 """Per-property extra back ends (framecheck, Lean, bounded tables) plugged into the driver."""
-EXTRA = {}
+import json
+import os
+import subprocess
+import time
+
+from . import extract
+
+ROOT = os.path.dirname(os.path.dirname(os.path.abspath(__file__)))
+NATIVE_PY = "/venv/bin/python"
+NET_PARAM_NAMES = ("H", "net", "S", "SC", "DH", "data", "H1", "H2")
+# documented in-place (docstring / signature): the frame clause does not apply to these
+C08_IN_PLACE_FUNCS = {"update_uid_counter", "empty_hypergraph", "empty_dihypergraph", "empty_simplicial_complex", "_empty_network"}
+READONLY_CLASSES = ("IDView", "NodeView", "EdgeView", "DiNodeView", "DiEdgeView", "IDStat", "NodeStat", "EdgeStat",
+                    "DiNodeStat", "DiEdgeStat", "MultiIDStat", "MultiNodeStat", "MultiEdgeStat", "MultiDiNodeStat", "MultiDiEdgeStat")
+NET_CLASSES = {"Hypergraph": "H", "DiHypergraph": "DH", "SimplicialComplex": "SC"}
+OWN_FIELD_STORES_OK = {"__init__", "__setstate__", "__getattr__"}
+
+
+def obligation(name, ok, reason=None, where=None, secs=0.0, props=("C08",), clause="frame"):
+    return dict(name=name, clause=clause, props=list(props), status="discharged" if ok else "refuted", secs=secs,
+                where=where, kind="frame", model=None, reason=reason, external=True, backend="framecheck (syntactic, modular)")
+
+
+def write_text_replay(pid, idx, title, doc, native_cmd=None):
+    d = os.path.join(ROOT, "out", pid)
+    os.makedirs(d, exist_ok=True)
+    path = os.path.join(d, "replay_x%d.py" % idx)
+    with open(path, "w") as f:
+        f.write('"""%s"""\n' % title.replace('"""', "'''"))
+        f.write("REPLAY = %r\n" % json.dumps(doc))
+        if native_cmd:
+            f.write("\nif __name__ == '__main__':\n    import subprocess, sys, json\n    out = subprocess.run(%r, stdout=subprocess.PIPE, cwd='/').stdout\n"
+                    "    r = json.loads(out)\n    print(r['violations'])\n    sys.exit(1 if r['violations'] else 0)\n" % (native_cmd,))
+    return path
+
+
+def native_c08(seed, only=None):
+    cmd = [NATIVE_PY, os.path.join(ROOT, "pyvc", "native_c08.py"), extract.REPO, str(seed), ",".join(only) if only else ""]
+    p = subprocess.run(cmd, stdout=subprocess.PIPE, stderr=subprocess.PIPE, cwd="/", timeout=900)
+    if p.returncode != 0:
+        raise RuntimeError("native_c08 failed: %s" % p.stderr.decode()[-1500:])
+    return json.loads(p.stdout.decode()), cmd
+
+
+def c08(pid, tier, seed):
+    from . import framecheck as fc
+    from . import frames
+    t0 = time.time()
+    sums, msums, funcs, methods = fc.summarize_all(fold_in_place=True)
+    pub = fc.public_names()
+    obs = []
+    # (a) public functions
+    for name in sorted(pub):
+        if name not in sums or name in C08_IN_PLACE_FUNCS:
+            continue
+        s = sums[name]
+        idxs = [i for i, p in enumerate(s.params) if p in NET_PARAM_NAMES]
+        if not idxs:
+            continue
+        bad = [(i, s.writes[i]) for i in idxs if i in s.writes]
+        obs.append(obligation("C08/frame:%s" % name, not bad, reason="; ".join("L%d %s" % w for i, ws in bad for w in ws[:3]) or None, where=s.qual))
+    # (b) non-mutating public methods of the three classes, (c) every method of views / stats
+    mut = {}
+    for cls, kind in NET_CLASSES.items():
+        d, i = frames.struct_mutators(kind)
+        mut[cls] = set(d) | set(i) | {"set_node_attributes", "set_edge_attributes", "freeze", "__setitem__", "__setstate__", "__init__"}
+    for q in sorted(msums):
+        cls, m = q.split(".", 1)
+        s = msums[q]
+        if cls in NET_CLASSES:
+            inherited_mut = set().union(*mut.values())
+            if m in mut[cls] or m in inherited_mut or (m.startswith("_") and not m.startswith("__")):
+                continue
+            bad = s.writes.get(0, [])
+            obs.append(obligation("C08/frame:%s" % q, not bad, reason="; ".join("L%d %s" % w for w in bad[:3]) or None, where=s.qual))
+        elif cls in READONLY_CLASSES:
+            bad = [w for w in s.writes.get(0, []) if not (m in OWN_FIELD_STORES_OK and "attribute store" in w[1])]
+            obs.append(obligation("C08/frame:%s" % q, not bad, reason="; ".join("L%d %s" % w for w in bad[:3]) or None, where=s.qual))
+            if m in fc.FRESH_METHODS:
+                ok = 0 not in s.returns
+                obs.append(obligation("C08/fresh-result:%s" % q, ok, clause="fresh-result", where=s.qual,
+                                      reason=None if ok else "the result may share a mutable object with the network (callers treat it as a copy)"))
+    # bounded stand-in
+    nat, cmd = native_c08(seed)
+    violations = []
+    k = 0
+    refuted = [o for o in obs if o["status"] == "refuted"]
+    nat_by_fn = {}
+    for v in nat["violations"]:
+        nat_by_fn.setdefault(v["function"], []).append(v)
+    for o in refuted:
+        fn = o["name"].split(":", 1)[1]
+        k += 1
+        hit = nat_by_fn.get(fn) or nat_by_fn.get(fn.split(".")[-1])
+        doc = dict(property=pid, obligation=o["name"], reason=o["reason"], where=o["where"], native=hit)
+        path = write_text_replay(pid, k, "C08 frame obligation refuted: %s\n%s" % (o["name"], o["reason"]), doc,
+                                 [NATIVE_PY, os.path.join(ROOT, "pyvc", "native_c08.py"), extract.REPO, str(seed), fn.split(".")[-1]])
+        violations.append(dict(obligation=o, path=path, reproduced=bool(hit), case={"function": fn, "native": hit}))
+    for fn, hits in nat_by_fn.items():
+        if any(o["name"].split(":", 1)[1] in (fn, ) or o["name"].endswith("." + fn) for o in refuted):
+            continue
+        k += 1
+        o = obligation("C08/bounded:%s" % fn, False, reason="snapshot differs after the call: %s" % hits[0]["diff"], clause="bounded")
+        path = write_text_replay(pid, k, "C08 bounded stand-in: %s mutates its argument" % fn, dict(property=pid, native=hits),
+                                 [NATIVE_PY, os.path.join(ROOT, "pyvc", "native_c08.py"), extract.REPO, str(seed), fn])
+        violations.append(dict(obligation=o, path=path, reproduced=True, case={"function": fn, "native": hits}))
+    return dict(
+        obligations=obs, violations=violations,
+        bounded=[dict(function="every public callable whose first parameter is a network (%d called successfully) + view accessors" % nat["functions_called"],
+                      bound="5 small networks (H mixed/str/small, SC, DH) x default arguments guessed by parameter name, seed %d" % seed,
+                      cases=nat["calls"], violations=len(nat["violations"]), kind="bounded stand-in: deep snapshot before/after on the real function",
+                      skipped=nat["skipped"])],
+        trusted=["framecheck alias/borrow analysis (pyvc/framecheck.py): flow-sensitive rebinding, flag folding, callee summaries",
+                 "external libraries (numpy, scipy, networkx, pandas, matplotlib, json) do not mutate Python containers passed to them",
+                 "methods listed in framecheck.FRESH_METHODS that are not defined in xgi (dict/set/ndarray methods) return fresh objects"],
+        assumptions=["network parameters are recognised by name: %s" % ", ".join(NET_PARAM_NAMES),
+                     "documented in-place callables excluded: %s and the mutating methods of the three classes" % ", ".join(sorted(C08_IN_PLACE_FUNCS)),
+                     "functions with an in_place flag are checked on the in_place=False path (flag constant-folded)"],
+    )
+
+
+EXTRA = {"C08": c08}
